@@ -40,7 +40,13 @@ def run(sc, module, trs, what, n, seed):
         files = sorted(os.path.join(d, f) for f in os.listdir(d)
                        if f.startswith("t") and ".ndjson" in f and not f.endswith((".meta", ".journal")))
         consts = props.conf_consts if module == "TraceInprocStream" else props.http_conf_consts
-        r = vlib.conform(sc, module, files, props.CONF_KINDS, consts, "dev", trs=("http",) if "http" in trs else ("inproc",))
+        kinds = props.CONF_KINDS
+        if module == "TraceInprocUnary":
+            kinds = {"unary": (False, False)}
+            consts = lambda flags: {"NH": 60, "MaxHdr": 20, "MaxTrl": 20, "Outcomes": '{"resp", "nilresp", "err"}',
+                                    "CancelKinds": '{"cancel", "deadline"}', "FixClosed": "TRUE", "FixDecode": "TRUE",
+                                    "Known": "{}"}
+        r = vlib.conform(sc, module, files, kinds, consts, "dev", trs=("http",) if "http" in trs else ("inproc",))
         print(json.dumps({k: r[k] for k in ("total", "accepted", "states")}), "rejected", r["rejected"][:30])
         metas = {}
         for f in files:
